@@ -1,7 +1,16 @@
 /-
   Dirk.Lemmas.Run — the invariants of AttInv / PropInv hold in every reachable instance state.
+
+  `run_attInv` / `run_propInv`: every history without the raw rules-level import (`NoRawImport`): signing,
+  restarts, import commands, account creation, account and wallet lock / unlock.
+  `…_with_imports`: generalisation to histories that also contain raw imports (`Op.importRec`), each of
+  which covers what had been released for its key when it is applied (`SafeHist`, Dirk.Model.Instance).
+  The raw import overwrites, so with an import below a released signature the statements are false
+  (Props/C01.lean `C01_lowering_import_counterexample`).
 -/
 import Dirk.Lemmas.PropInv
+import Dirk.Lemmas.OpsExtra
+import Dirk.Lemmas.ImportCmd
 
 namespace Dirk
 
@@ -32,7 +41,8 @@ theorem propInv_of_frame {s s' : Inst} (h : PropInv s) (h1 : s'.db = s.db) (h2 :
     PropInv s' :=
   ⟨by rw [h1, h2]; exact h.covered, by rw [h2]; exact h.mono⟩
 
-theorem step_attInv (s : Inst) (op : Op) (h : AttInv s) : AttInv (step s op).1 := by
+theorem step_attInv_with_imports (s : Inst) (op : Op) (h : AttInv s) (hs : op.safeAt s) :
+    AttInv (step s op).1 := by
   cases op with
   | att c a d f => exact signAtt_inv h c a d f false
   | atts c items f => exact signAtts_inv h c items f []
@@ -40,8 +50,15 @@ theorem step_attInv (s : Inst) (op : Op) (h : AttInv s) : AttInv (step s op).1 :
   | sign c ip a d => exact attInv_of_frame h (signGeneric_frame s c ip a d false).1 (signGeneric_frame s c ip a d false).2.1
   | msign c ip items => exact attInv_of_frame h (multisign_frame s c ip items []).1 (multisign_frame s c ip items []).2.1
   | restart => exact h
+  | importRec k r => exact importKey_attInv h (toBytes48 k) r hs
+  | importCmd gvr f => exact step_importCmd_attInv h gvr f
+  | create c p pk => exact attInv_of_frame h (step_create_frame s c p pk).1 (step_create_frame s c p pk).2.1
+  | setUnlockable w n b => exact attInv_of_frame h rfl rfl
+  | lockWallet c w => exact h
+  | unlockWallet c w => exact h
 
-theorem step_propInv (s : Inst) (op : Op) (h : PropInv s) : PropInv (step s op).1 := by
+theorem step_propInv_with_imports (s : Inst) (op : Op) (h : PropInv s) (hs : op.safeAt s) :
+    PropInv (step s op).1 := by
   cases op with
   | att c a d f => exact signAtt_propInv h c a d f false
   | atts c items f => exact signAtts_propInv h c items f []
@@ -49,16 +66,37 @@ theorem step_propInv (s : Inst) (op : Op) (h : PropInv s) : PropInv (step s op).
   | sign c ip a d => exact propInv_of_frame h (signGeneric_frame s c ip a d false).1 (signGeneric_frame s c ip a d false).2.2
   | msign c ip items => exact propInv_of_frame h (multisign_frame s c ip items []).1 (multisign_frame s c ip items []).2.2
   | restart => exact h
+  | importRec k r => exact importKey_propInv h (toBytes48 k) r hs
+  | importCmd gvr f => exact step_importCmd_propInv h gvr f
+  | create c p pk => exact propInv_of_frame h (step_create_frame s c p pk).1 (step_create_frame s c p pk).2.2.1
+  | setUnlockable w n b => exact propInv_of_frame h rfl rfl
+  | lockWallet c w => exact h
+  | unlockWallet c w => exact h
 
-theorem run_attInv (ops : List Op) : ∀ (s : Inst), AttInv s → AttInv (run s ops) := by
+theorem run_attInv_with_imports (ops : List Op) : ∀ (s : Inst), AttInv s → SafeHist s ops → AttInv (run s ops) := by
   induction ops with
-  | nil => intro s h; exact h
-  | cons op rest ih => intro s h; exact ih _ (step_attInv s op h)
+  | nil => intro s h _; exact h
+  | cons op rest ih => intro s h hs; exact ih _ (step_attInv_with_imports s op h hs.1) hs.2
 
-theorem run_propInv (ops : List Op) : ∀ (s : Inst), PropInv s → PropInv (run s ops) := by
+theorem run_propInv_with_imports (ops : List Op) : ∀ (s : Inst), PropInv s → SafeHist s ops → PropInv (run s ops) := by
   induction ops with
-  | nil => intro s h; exact h
-  | cons op rest ih => intro s h; exact ih _ (step_propInv s op h)
+  | nil => intro s h _; exact h
+  | cons op rest ih => intro s h hs; exact ih _ (step_propInv_with_imports s op h hs.1) hs.2
+
+theorem safeAt_of_not_raw {s : Inst} {op : Op} (h : op.isRawImport = false) : op.safeAt s := by
+  cases op <;> simp [Op.isRawImport] at h <;> trivial
+
+theorem step_attInv (s : Inst) (op : Op) (h : AttInv s) (hr : op.isRawImport = false) : AttInv (step s op).1 :=
+  step_attInv_with_imports s op h (safeAt_of_not_raw hr)
+
+theorem step_propInv (s : Inst) (op : Op) (h : PropInv s) (hr : op.isRawImport = false) : PropInv (step s op).1 :=
+  step_propInv_with_imports s op h (safeAt_of_not_raw hr)
+
+theorem run_attInv (ops : List Op) (s : Inst) (h : AttInv s) (hr : NoRawImport ops) : AttInv (run s ops) :=
+  run_attInv_with_imports ops s h (safeHist_of_noRawImport ops s hr)
+
+theorem run_propInv (ops : List Op) (s : Inst) (h : PropInv s) (hr : NoRawImport ops) : PropInv (run s ops) :=
+  run_propInv_with_imports ops s h (safeHist_of_noRawImport ops s hr)
 
 theorem init_attInv (cfg : Config) (db0 : Db) : AttInv (init cfg db0) :=
   ⟨by simp [init], by simp [init, LogMono]⟩
